@@ -221,14 +221,20 @@ def falsify(ctx):
     extras = [[], ["--output-datetime-class", "datetime"], ["--use-union-operator"], ["--use-standard-collections"], ["--disable-timestamp"],
               ["--field-constraints"], ["--use-annotated"], ["--snake-case-field"], ["--reuse-model"], ["--strict-nullable"]]
     combos = [[]] + [e for e in extras[1:]] + [sum(rng.sample(extras[1:], 2), []) for _ in range(ctx.n(4, 30))]
+    stop = False
     for extra in combos:
-        with c18.sandbox(None) as d:
-            code, _, err = c18.run_main(["--input", "schema.json", "--output", "o.py", "--output-model-type", "dataclasses.dataclass",
-                                         "--keyword-only", "--target-python-version", "3.9", *extra], recorder=False)
-            ctx.count("eval_e2e")
-            if code == 0 and "kw_only" in (d / "o.py").read_text():
-                ctx.violation("cli-kw-only-39:" + " ".join(extra), f"the command line accepts --keyword-only for target 3.9 with {extra} and emits kw_only", {"cli_kw_only": extra})
-                break
+        for target in (["--target-python-version", "3.9"], []):   # given, or left to the default (which is 3.9)
+            with c18.sandbox(None) as d:
+                code, _, err = c18.run_main(["--input", "schema.json", "--output", "o.py", "--output-model-type", "dataclasses.dataclass",
+                                             "--keyword-only", *target, *extra], recorder=False)
+                ctx.count("eval_e2e")
+                if code == 0 and "kw_only" in (d / "o.py").read_text():
+                    ctx.violation("cli-kw-only-39:" + " ".join(target + extra),
+                                  f"the command line accepts --keyword-only for target 3.9 ({'given' if target else 'the default'}) with {extra} and emits kw_only", {"cli_kw_only": target + extra})
+                    stop = True
+                    break
+        if stop:
+            break
 
 
 def replay_finding(ctx, f):
